@@ -58,6 +58,20 @@ func analyseBuilder(f *ssa.Function) *builderShape {
 			bs.reuseIdx = append(bs.reuseIdx, v)
 		}
 	}
+	var removals []*ssa.Call
+	defer func() {
+		// old = append(old[:i], old[i+1:]...) with both i the same index value (one value, or two reads of the same
+		// field of one index result)
+		for _, x := range removals {
+			s0 := x.Call.Args[0].(*ssa.Slice)
+			s1 := x.Call.Args[1].(*ssa.Slice)
+			if lo, ok := s1.Low.(*ssa.BinOp); ok && lo.Op == token.ADD && (lo.X == s0.High || bs.same(lo.X, s0.High) || sameValue(lo.X, s0.High)) {
+				if k, ok := constInt(lo.Y); ok && k == 1 {
+					bs.removed[s0.High] = x
+				}
+			}
+		}
+	}()
 	eachInstr(f, func(ins ssa.Instruction) {
 		switch x := ins.(type) {
 		case *ssa.Extract:
@@ -90,11 +104,7 @@ func analyseBuilder(f *ssa.Function) *builderShape {
 				s0, ok0 := x.Call.Args[0].(*ssa.Slice)
 				s1, ok1 := x.Call.Args[1].(*ssa.Slice)
 				if ok0 && ok1 && s0.High != nil && s1.Low != nil {
-					if lo, ok := s1.Low.(*ssa.BinOp); ok && lo.Op == token.ADD && lo.X == s0.High {
-						if k, ok := constInt(lo.Y); ok && k == 1 {
-							bs.removed[s0.High] = x
-						}
-					}
+					removals = append(removals, x)
 					return
 				}
 				if ok1 {
